@@ -57,11 +57,23 @@ def check_calibration_indices(rep: Report, repo: Repo):
         ob("R-FORMULA", UFILE, "get_calibration_indices", "the helper is array.searchsorted(datetime64(value), side) with the caller's side", okh,
            f"helper returns {ast.unparse(ret[0].value) if ret else None}", h.body[-1])
     calls = []
+    walrus: Dict[str, list] = {}
+    for ne in ast.walk(fn):
+        if isinstance(ne, ast.NamedExpr) and isinstance(ne.target, ast.Name):
+            walrus.setdefault(ne.target.id, []).append(ne.value)
+    plain_defs = {n_.id for n_ in ast.walk(fn) if isinstance(n_, ast.Name) and isinstance(n_.ctx, ast.Store)
+                  and not any(isinstance(ne, ast.NamedExpr) and ne.target is n_ for ne in ast.walk(fn))} | {a.arg for a in fn.args.args}
     for c in ast.walk(fn):
         if isinstance(c, ast.Call) and ((hname and ast.unparse(c.func) == hname) or (isinstance(c.func, ast.Attribute) and c.func.attr == "searchsorted"
                                                                                        and not (hname and c in list(ast.walk(helper[0]))))):
             if hname and ast.unparse(c.func) == hname and len(c.args) == 3:
-                calls.append((ast.unparse(c.args[0]), ast.unparse(c.args[1]), ast.unparse(c.args[2]).strip("'\""), c))
+                a0 = c.args[0]
+                # `f(t := E, ..)`, `f(t, ..)`: the array looked up is the one object E evaluated to, under either spelling
+                if isinstance(a0, ast.NamedExpr):
+                    a0 = a0.value
+                elif isinstance(a0, ast.Name) and len(walrus.get(a0.id, [])) == 1 and a0.id not in plain_defs:
+                    a0 = walrus[a0.id][0]
+                calls.append((ast.unparse(a0), ast.unparse(c.args[1]), ast.unparse(c.args[2]).strip("'\""), c))
             elif not hname:
                 a = [ast.unparse(x.args[0]) if isinstance(x, ast.Call) and ast.unparse(x.func) in ("np.datetime64", "numpy.datetime64") and len(x.args) == 1
                      else ast.unparse(x) for x in c.args]      # the value is converted to datetime64 before the lookup (as the helper does)
